@@ -272,6 +272,7 @@ class PoolWorld:
         self.last_snapshot = None
         self.last_issued = None
         self.on_enqueued_cb = None
+        self.on_cancel_cb = None
         self.conns = {}
         self.probes = {}
         self.faults = {}
@@ -363,6 +364,8 @@ class PoolWorld:
     def on_cancel_request(self, tid, before):
         f = self.tasks_by_tid.get(tid)
         self.trace.log("cancel_processed", tid=tid, before=before.name if before else None)
+        if getattr(self, "on_cancel_cb", None) is not None:
+            self.on_cancel_cb(tid)
         if f is None or before is None:
             return
         phase = f.procs[-1].phase if f.procs else None
